@@ -193,5 +193,6 @@ def finish(ctx, broken=None):
         print('  %-8s %3d/%-3d (min %d)  %s' % (rid, pr['discharged'], pr['instances'], m, d[:110]))
     if broken:
         print('ANALYSIS-BROKEN property=%s reason=%s' % (prop, broken))
-        return 2
+        # violations already established are definite; the break only means the remaining rules were not evaluated
+        return 1 if violations else 2
     return 1 if violations else 0
